@@ -13,8 +13,9 @@ import (
 
 func init() {
 	register("C04", Entry{
-		Title: "A server runs one handler at a time per client connection until Release",
-		Run:   runC04,
+		Title:    "A server runs one handler at a time per client connection until Release",
+		Run:      runC04,
+		Examples: true,
 		Meta: core.PropertyMeta{
 			Explanation: "H1: in NodeStream every path from starting a handler to the next RecvMsg acquires the per-connection mutex, which is held when the first handler starts. H2: that mutex is a local of NodeStream (one per connection, never shared between clients), its address flows only into the ServerCtx literal of the handler start and into Lock/Unlock calls; the only releases are the deferred unlock at NodeStream's exit and ServerCtx.Release, whose body is exactly once.Do(mut.Unlock) on the context's own fields; the Once stored in each literal is freshly allocated per iteration. H3: every registered handler closure in every committed generated file (and the server template) executes 'defer ctx.Release()' before it calls the implementation. H4: the server stream is written only by the single reply-pump goroutine of NodeStream (started once, outside the loop); handlers reach it only through SendMessage, whose body is a select bounded by the stream context. H5: replies are routed by the echoed id (C05-M5).",
 			NotDecided:  "Actual overlap/non-overlap at run time; behaviour of user handlers that block forever (only that the mutex they hold is per connection).",
